@@ -163,6 +163,38 @@ Theorem C08_loop_killed_nothing_served : forall q1 q2 q3 sty pre c,
 Proof. intros q1 q2 q3 sty. exact (loop_killed_nothing_served (gen_cfg q1 q2 q3) sty (C08_gen_structure q1 q2 q3)). Qed.
 Print Assumptions C08_loop_killed_nothing_served.
 
+(* The proxy's end of the handshake.  What a Proxy makes of the daemon's answer is a function of the answer alone —
+   not of the serializer the proxy is configured with, nor of the one the daemon chose (its fallback serializer for early
+   refusals: no free worker, unaccepted serializer id, malformed or missing first message): the answer's payload is read
+   with the serializer named in the answer's own header. *)
+Theorem C08_client_outcome_of_answer : forall q1 q2 q3 cs k s i,
+  client_reads (gen_cfg q1 q2 q3) cs (Some (k, s, i)) =
+  match k with RConnectOk => CConnected | RConnectFail r => CRejected r | _ => CProtocol end.
+Proof. intros q1 q2 q3. exact (client_outcome_of_answer (gen_cfg q1 q2 q3) (C08_gen_structure q1 q2 q3)). Qed.
+Print Assumptions C08_client_outcome_of_answer.
+
+(* End to end: a proxy whose CONNECT (in its own serializer m_ser) is refused — for whatever reason, answered through
+   whatever serializer — gets the rejection carrying the very reason the daemon put into its CONNECTFAIL. *)
+Theorem C08_proxy_learns_reason : forall q3 sty pre ce c m,
+  let g := gen_cfg false false q3 in
+  e_conn ce = c -> fresh g sty pre c -> e_in ce = InMsg m ->
+  is_accepted_connect g sty (reg_after g sty pre) ce = false -> validator_aborts g sty ce = false ->
+  exists r s i, outs_of g sty pre (EvConn ce) = [Reply c (RConnectFail r) s i; SockClosed c] /\
+    client_reads g (m_ser m) (answer_of c (outs_of g sty pre (EvConn ce))) = CRejected r.
+Proof.
+  intros q3 sty.
+  exact (proxy_learns_reason (gen_cfg false false q3) sty (C08_gen_structure false false q3) eq_refl eq_refl).
+Qed.
+Print Assumptions C08_proxy_learns_reason.
+
+Theorem C08_proxy_connected_iff_accepted : forall q1 q2 q3 sty pre ce c m,
+  let g := gen_cfg q1 q2 q3 in
+  e_conn ce = c -> fresh g sty pre c -> e_in ce = InMsg m ->
+  is_accepted_connect g sty (reg_after g sty pre) ce = true ->
+  client_reads g (m_ser m) (answer_of c (outs_of g sty pre (EvConn ce))) = CConnected.
+Proof. intros q1 q2 q3 sty. exact (proxy_connected_iff_accepted (gen_cfg q1 q2 q3) sty (C08_gen_structure q1 q2 q3)). Qed.
+Print Assumptions C08_proxy_connected_iff_accepted.
+
 (* The defective variants: a failing first event that does not get "one CONNECTFAIL, then closed". *)
 Definition wit_msg (known : bool) (o : N) (v : vb) : msg :=
   {| m_type := t_connect; m_wf := WfOk; m_ser := (if known then 1 else 99)%N; m_ser_known := known; m_seq := 7%N;
@@ -259,3 +291,10 @@ Example C08_nonvacuous_registry :
      Reply 2 (RConnectFail RsnUnknownObject) 7%N 1%N; SockClosed 2;
      Reply 1 RError 3%N 1%N; Exec 1 TUser 8%N; Reply 1 RResult 3%N 1%N].
 Proof. vm_compute. reflexivity. Qed.
+
+(* a serpent proxy refused by a full thread pool: the answer comes through marshal, the proxy still learns the reason *)
+Example C08_nonvacuous_proxy :
+  let e := {| e_conn := 0; e_in := InMsg (wit_msg true 1 (VAccept true)); e_denied := true |} in
+  outs_of (gen_cfg false false true) Thread [reg1] (EvConn e) = [Reply 0 (RConnectFail RsnDenied) 7%N marshal_id; SockClosed 0] /\
+  client_reads (gen_cfg false false true) 1%N (answer_of 0 (outs_of (gen_cfg false false true) Thread [reg1] (EvConn e))) = CRejected RsnDenied.
+Proof. split; vm_compute; reflexivity. Qed.
